@@ -464,10 +464,8 @@ func (p *Parser) peek() byte {
 }
 
 func (p *Parser) peekTwo() (byte, byte) {
-	// TODO: This should loop for slow readers, e.g. those providing one byte at
-	// a time. Use a loop and test it with [testing/iotest.OneByteReader].
-	if int(p.bsp+1) >= len(p.bs) {
-		p.fill()
+	// Loop for slow readers, e.g. those providing one byte at a time.
+	for int(p.bsp+1) >= len(p.bs) && p.fill() > 0 {
 	}
 	if int(p.bsp) >= len(p.bs) {
 		return utf8.RuneSelf, utf8.RuneSelf
